@@ -152,11 +152,27 @@ def check_case(ctx, case):
                 continue
             # call
             _, typed, style_seed, bad_at, raising = op[:5]
-            made = gs.make_args(params, bad_at=bad_at if typed == "ill" else None, style_seed=style_seed)
+            off = model_disabled or always_off
+            # while checking is off the decorated function IS the plain function, also for calls that inspect.Signature.bind
+            # cannot represent (a keyword named like a defaulted positional-only parameter, C07's known finding when on)
+            shadow = off and typed == "well" and any(p["kind"] == "po" and p["has_default"] for p in params) and any(p["kind"] == "vk" for p in params)
+            made = gs.make_args(params, bad_at=bad_at if typed == "ill" else None, style_seed=style_seed, omit_defaults=shadow, force_shadow=shadow)
             if made is None:
                 continue
             args, kwargs, recv = made
-            off = model_disabled or always_off
+            if shadow:
+                flags.add("unbindable-call-while-disabled")
+            # the body does two manual checks that agree only outside a context: plain code called at top level sees
+            # (True, True); so must the decorated function while checking is off
+            body_checks, body_checks0 = [], []
+
+            def mk(sink):
+                import numpy as _np
+                from jaxtyping import Shaped as _Shaped
+
+                return lambda: sink.append((isinstance(_np.zeros(3), _Shaped[_np.ndarray, "vf19n"]), isinstance(_np.zeros(4), _Shaped[_np.ndarray, "vf19n"])))
+
+            rec.hook, rec0.hook = mk(body_checks), mk(body_checks0)
             rec.calls.clear()
             rec0.calls.clear()
             exc = ValueError("from body") if raising else None
@@ -174,7 +190,11 @@ def check_case(ctx, case):
             else:
                 st_, val = drive(kind, dec, list(args), dict(kwargs))
             st0, val0 = drive(kind, raw0, list(args), dict(kwargs))
+            rec.hook = rec0.hook = None
             ncalls += 1
+            if off and body_checks != body_checks0:
+                raise Violation("differs-from-plain", case, f"manual isinstance checks in the body gave {body_checks} in the decorated function (checking off) and {body_checks0} in the plain one; "
+                                                            f"args={args!r} kwargs={kwargs!r} {info} ops={case['ops']}")
             where = f"{'disabled' if off else 'enabled'} {typed}-typed call args={args!r} kwargs={kwargs!r} {info} ops={case['ops']}"
             if off or typed == "well":
                 # exactly like the plain function
